@@ -145,6 +145,12 @@ impl<'tree, D: Doc, M: Matcher<D::Lang>> Iterator for FindAllNodes<'tree, D, M> 
     for cand in self.dfs.by_ref() {
       if let Some(k) = &kinds {
         if !k.contains(cand.kind_id().into()) {
+          #[cfg(feature = "verif-hooks")]
+          crate::verif::prune(
+            "core.find_all.kinds",
+            || self.matcher.match_node(cand.clone()).is_some(),
+            || format!("kind={} range={:?}", cand.kind(), cand.range()),
+          );
           continue;
         }
       }
